@@ -971,5 +971,37 @@ pub fn c08(ctx: &mut Ctx) {
             }
         }
     }
+    // builders and error conversions: a value or an error, never a panic
+    {
+        use scratchstack_aws_signature::{GetSigningKeyRequest, GetSigningKeyResponse, SignatureError};
+        let probes: Vec<(&str, Box<dyn Fn() -> String + std::panic::UnwindSafe>)> = vec![
+            ("GetSigningKeyRequestBuilder empty", Box::new(|| format!("{:?}", GetSigningKeyRequest::builder().build().is_err()))),
+            ("GetSigningKeyRequestBuilder partial", Box::new(|| format!("{:?}", GetSigningKeyRequest::builder().access_key("A").build().is_err()))),
+            ("GetSigningKeyResponseBuilder empty", Box::new(|| format!("{:?}", GetSigningKeyResponse::builder().build().is_err()))),
+            ("GetSigningKeyResponse default", Box::new(|| format!("{:?}", GetSigningKeyResponse::default().principal()))),
+            ("SigV4AuthenticatorResponseBuilder", Box::new(|| format!("{:?}", scratchstack_aws_signature::auth::SigV4AuthenticatorResponse::builder().build().is_ok()))),
+            ("SigV4AuthenticatorBuilder empty", Box::new(|| format!("{:?}", scratchstack_aws_signature::auth::SigV4AuthenticatorBuilder::default().build().is_err()))),
+            ("From<io::Error>", Box::new(|| format!("{}", SignatureError::from(std::io::Error::new(std::io::ErrorKind::Other, "x"))))),
+            ("From<BoxError> foreign", Box::new(|| { let b: Box<dyn std::error::Error + Send + Sync> = "plain".into(); imp::kind_of(&SignatureError::from(b)).to_string() })),
+            ("From<BoxError> signature error", Box::new(|| { let b: Box<dyn std::error::Error + Send + Sync> = Box::new(imp::make_error("ExpiredToken")); imp::kind_of(&SignatureError::from(b)).to_string() })),
+            ("KeyTooLongError display", Box::new(|| format!("{} {:?}", scratchstack_aws_signature::KeyTooLongError, scratchstack_aws_signature::KeyTooLongError))),
+            ("SignatureOptions", Box::new(|| format!("{:?} {:?}", scratchstack_aws_signature::SignatureOptions::url_encode_form(), scratchstack_aws_signature::SignatureOptions::S3))),
+        ];
+        for (name, f) in probes {
+            ctx.rep.count("evaluations");
+            ctx.rep.count("evaluations.BUILDER");
+            match std::panic::catch_unwind(f) {
+                Ok(out) => {
+                    let want = match name { "From<BoxError> foreign" => Some("InternalServiceError"), "From<BoxError> signature error" => Some("ExpiredToken"), _ => None };
+                    if let Some(w) = want {
+                        if out != w {
+                            ctx.rep.fail(Failure { kind: "ORACLE", op: "BUILDER".into(), class: "c08-conversion".into(), input: name.into(), imp: out, model: String::new(), spec: w.into(), clause: "error conversion: a boxed SignatureError must come back unchanged, anything else as InternalServiceError".into() });
+                        }
+                    }
+                }
+                Err(_) => ctx.rep.fail(Failure { kind: "ORACLE", op: "BUILDER".into(), class: "panic:builder".into(), input: name.into(), imp: "PANIC".into(), model: String::new(), spec: String::new(), clause: "C08: a builder or error conversion panicked".into() }),
+            }
+        }
+    }
     ctx.rep.sample("sizes 0..1MiB with folding on/off; every charset label; mutated requests under all option/requirement combinations; direct calls of every public canonicalisation function".into());
 }
